@@ -7,6 +7,9 @@ ids = [p["id"] for p in props]
 
 # id -> (engine, technique, level text, level note, design ref)
 CLAIMED = {
+ "C03": ("E-GEN->E-INF", "proptest tape generation of ground-truth deflate streams (R-GEN) with single-fault injection, mutation and prefixes + exhaustive enumeration of short raw streams; oracle = independent RFC decoder R-DEC arbitrated by zlib-ng",
+         "exploration: generated valid/faulted/prefix/mutated/encoder-made streams under every wrapper and decoder mode are decoded one-shot and under a generated chunk schedule and compared with an independent strict RFC 1951/1950/1952 decoder whose verdict is cross-checked against the construction label on every case; all raw streams of <= 2 bytes (quick) / <= 3 bytes (thorough) are enumerated",
+         "trusts R-DEC/R-GZH/R-GEN in harness/src/refimpl (cross-checked per case against each other and zlib-ng 2.3.3; a disagreement among the oracles is exit 2, never a violation); decoder window is kept >= the largest distance the generator used, because zlib's verdict is schedule-dependent otherwise", "DESIGN.md 6 (C03)"),
  "C09": ("E-CK", "proptest tape generation + exhaustive length x alignment grid per CPU mask against bitwise reference checksums",
          "exploration: every (length 0..=1100 x 64 alignments) and (length 0..=16784 x 4 alignments) cell for 3 data families, 3 start values and every implementation reachable on this CPU (hook mask, scalar build, AVX-512 build) is enumerated against the definitions; beyond the grid, generated calls incl. combine with len2 up to 2^63",
          "trusts the bit-at-a-time CRC-32 / per-byte-modulo Adler-32 / GF(2) square-and-multiply in harness/src/refimpl/rck.rs; NEON/LSX/wasm implementations are not compiled on x86_64", "DESIGN.md 6 (C09)"),
